@@ -108,6 +108,45 @@ def impl_bfs(alphabet, depth, gamma_terms, maxstack=4, maxsize=9, maxstates=4000
     return cases
 
 
+def indstep(v, quick):
+    """(A1) inductive step on the specification + the same rule instances executed by Rust."""
+    import funcs
+    res, n = funcs.run_blocks(v, 'C01', 'MC_IndStep', 'c01-indstep', None, ' Quick = ' + ('TRUE' if quick else 'FALSE'), bs=4, needs_sem=True)
+    if res.fails:
+        raise MachineryError(f'the SPECIFICATION machine is unsound in the inductive step: {res.fails[:3]}')
+    valid, alpha, plugs, plugs2 = [], None, None, None
+    for line in res.out.splitlines():
+        line = line.strip()
+        if line.startswith('"VALID '):
+            valid.append(json.loads(json.loads(line)[6:]))
+        elif line.startswith('"ALPHA '):
+            alpha = json.loads(json.loads(line)[6:])
+        elif line.startswith('"PLUGS2 '):
+            plugs2 = json.loads(json.loads(line)[7:])
+        elif line.startswith('"PLUGS '):
+            plugs = json.loads(json.loads(line)[6:])
+    v.cov['inductive_step_premises_valid'] = len(valid)
+    v.cov['inductive_step_candidates'] = n
+    vkeys = {tkey(x) for x in valid}
+    pairs = []
+    def st(stack):
+        return {'stack': stack, 'memory': [], 'claims': [], 'phase': 'proof', 'gamma': []}
+    for x in valid:
+        for i in alpha:
+            if i['op'] == 'Instantiate' and len(i['ids']) == 2:
+                for g1 in plugs2:
+                    for g2 in plugs2:
+                        pairs.append((st([{'k': 'pat', 'p': g2}, {'k': 'pat', 'p': g1}, {'k': 'prf', 'p': x}]), i))
+            else:
+                for g in plugs:
+                    pairs.append((st([{'k': 'pat', 'p': g}, {'k': 'prf', 'p': x}]), i))
+        if x['t'] == 'imp' and tkey(x['l']) in vkeys:
+            pairs.append((st([{'k': 'prf', 'p': x}, {'k': 'prf', 'p': x['l']}]), machine.ins('ModusPonens')))
+    cases = machine.replay_steps(pairs)
+    v.sample({'pre_stack': cases[5]['stack'], 'ins': cases[5]['ins'], 'out': cases[5]['out']})
+    report(v, validate(v, 'c01-indstep-trace', cases, semsize=24, semmvs=3, bs=400), 'inductive step from a valid premise')
+
+
 def report(v, fails, source):
     for clause, c in fails:
         if clause == 'decode':
@@ -125,17 +164,19 @@ def run(v, tier):
                       'rustc stable in place of the pinned nightly',
                       'axioms of the gamma phase are assumed valid (theory-relative validity)']
     # (A)+(B): spec-side frontier
-    trans, alphabet = reach(v, 'c01-reach', 'AlphaQuick', 'GammaEmpty', 5 if quick else 6, True)
+    trans, alphabet = reach(v, 'c01-reach', 'AlphaQuick', 'GammaEmpty', 4 if quick else 6, True)
     pairs = [({'stack': t['stack'], 'memory': t['memory'], 'claims': [], 'phase': 'proof', 'gamma': []}, t['ins'])
              for t in trans]
     cases = machine.replay_steps(pairs)
     v.sample({'pre_stack': cases[-1]['stack'], 'ins': cases[-1]['ins'], 'out': cases[-1]['out']})
     report(v, validate(v, 'c01-reach-trace', cases), 'spec-explored transition')
+    indstep(v, quick)
     # (A): deeper, directed alphabet, no export
-    _, calpha = reach(v, 'c01-reach-capture', 'AlphaCapture', 'GammaEmpty', 9 if quick else 10, False)
+    _, calpha = reach(v, 'c01-reach-capture', 'AlphaCapture', 'GammaEmpty', 8 if quick else 10, False)
     # (C): the implementation's own frontier over the same alphabets
-    cases = impl_bfs(calpha, 8 if quick else 9, [])
+    cases = impl_bfs(calpha, 7 if quick else 9, [])
     report(v, validate(v, 'c01-impl-capture', cases), 'implementation-explored transition')
     v.sample({'pre_stack': cases[-1]['stack'], 'ins': cases[-1]['ins'], 'out': cases[-1]['out']})
-    cases = impl_bfs(alphabet, 4 if quick else 5, [])
-    report(v, validate(v, 'c01-impl-quick', cases), 'implementation-explored transition')
+    if not quick:
+        cases = impl_bfs(alphabet, 5, [])
+        report(v, validate(v, 'c01-impl-quick', cases), 'implementation-explored transition')
